@@ -110,7 +110,7 @@ func runFirstTouch(e *vh.Env, n int) (rounds, mismatches int) {
 		t1 := time.Now()
 		rs, note := runSchedule(l, len(c.L.Seeds), firstTouchChooser(e.Rnd, bursts), e.Rnd.Intn)
 		t2 := time.Now()
-		if !emitRun(e, c, l, rs, note, classOf(c)) {
+		if !emitChunked(e, c, l, rs, note, classOf(c), 5) {
 			mismatches++
 		}
 		tRun += t2.Sub(t1)
